@@ -31,6 +31,34 @@ CHECKS = {
             "8-bit dictionary keys are excluded: concat may legitimately fail with a key-overflow error",
         ],
     },
+    "C14": {
+        "crate": "checks",
+        "bin": "c14_chunk",
+        "level": "exploration",
+        "max_skip_fraction": 0.10,
+        "rule": "one run = one generated workload written fault-free by the real writer, then decoded by the real push decoder under delivery schedules chosen by the simulator: "
+                "one chunk (reference), EVERY single split point (stride n/3000 for long inputs), one byte at a time, 1-6 tape-chosen multi-splits with empty chunks where the protocol makes "
+                "them no-ops, and the same again for a tape-chosen strict prefix of the bytes (invalid input); executions_of_real_code = decoder executions; "
+                "distinct = distinct (decoder, input length, rows, multi-split cut sets)",
+        "required_probes": ["probe.reference_is_error"],
+        "components": {
+            "real": ["arrow_csv::reader::Decoder (+ RecordDecoder), arrow_json::reader::Decoder (+ TapeDecoder), arrow_ipc::reader::StreamDecoder, driven by the loops documented on each type",
+                     "arrow_csv::Writer, arrow_json writers, arrow_ipc::writer::StreamWriter (produce the inputs); arrow_csv::Reader, arrow_json::Reader, arrow_ipc StreamReader (pull readers compared on valid input)"],
+            "stub": ["the producer that cuts the byte stream into chunks (seeded / enumerated schedule)"],
+            "not_run": ["arrow_avro Decoder (single-object framing needs a schema store; not built)", "ParquetMetaDataPushDecoder", "FlightDataDecoder", "corrupted (bit-flipped) inputs; only truncation is used as invalid input"],
+        },
+        "level_text": "seeded exploration of chunk-delivery schedules (every single split point enumerated per input, byte-at-a-time, random multi-splits with empty chunks) of three push decoders "
+                      "against their own one-chunk result and the pull reader; sampling of inputs, not proof",
+        "design_ref": "DESIGN.md section 4 (C14)",
+        "level_note": "covers the CSV, JSON and IPC stream decoders only; the Avro decoder, the Parquet metadata push decoder and the Flight decoder named by the property are NOT exercised; "
+                      "invalid inputs are truncations only; flush is issued where the documented loop issues it (not at every permitted point); trusted: in-tree simulator, row extraction, validate_full",
+        "technique": "deterministic simulation: the input transport is a seam owned by the simulator, which enumerates / samples the delivery schedule; reference = single delivery; tape replay + shrinking",
+        "assumptions": TRUSTED + [
+            "the documented driver loop of each decoder is the protocol; empty chunks are sent mid-stream only to the JSON and IPC decoders (for CSV an empty buffer means end of input)",
+            "when both schedules fail, only the prefix relation between the rows emitted before the error is required (an error found at flush discards that batch)",
+            "StreamDecoder::with_require_alignment stays at its default (false): with it the outcome legitimately depends on where the caller's chunk happens to be aligned",
+        ],
+    },
     "C18": {
         "crate": "checks",
         "bin": "c18_iofault",
